@@ -60,15 +60,15 @@ def gen_case(rng):
         return {"kind": "c11", "ops": ops, "nomodel": True, "home": home}
     if r < 0.5:
         ops = c06.gen_history(rng, maxlen=rng.randint(4, 26), risky=0.25, files=rng.random() < 0.5, clone_p=0.12,
-                              into_p=0.3, coll_p=0.5, max_objs=3, share_p=0.25)
+                              into_p=0.3, coll_p=0.5, max_objs=3, share_p=0.25, srcedit_p=0.08)
     else:
         classes = [c06.tree(rng, dens=0.45) for _ in range(rng.randint(1, 3))]
         ops = c06.gen_history(rng, maxlen=rng.randint(8, 30), risky=0.2, files=rng.random() < 0.5, clone_p=0.22,
-                              into_p=0.65, coll_p=0.3, max_objs=6, classes=classes, reload_p=0.3, levels=True, share_p=0.2,
+                              into_p=0.65, coll_p=0.3, max_objs=6, classes=classes, reload_p=0.3, levels=True, share_p=0.2, srcedit_p=0.12,
                               focus=rng.choice([0.0, 0.5, 0.8]))
     if not any(o["op"] == "CLONE" for o in ops):
         k = rng.randint(1, len(ops))
-        while k < len(ops) and ops[k - 1]["op"] == "LOADU":
+        while k < len(ops) and ops[k - 1]["op"] in ("LOADU", "EDITSRC"):
             k += 1
         ops.insert(k, {"o": 0, "op": "CLONE"})
     return {"kind": "c11", "ops": ops, "home": home}
@@ -306,7 +306,7 @@ def run(ctx):
             seen_cls, origin = {}, {0: None}
             nobj = 1
             for i, o in enumerate(ops):
-                if o["op"] in ("LOADU", "MERGE", "RUNTIME", "PROJECT"):
+                if o["op"] in ("LOADU", "MERGE", "RUNTIME", "PROJECT", "EDITSRC", "LOADSAME"):
                     out.hist["op_" + o["op"]] += 1
                 if o["op"] != "CLONE":
                     continue
